@@ -30,7 +30,7 @@ def h_dims(n, edges, feeder, fluid, with_config=True, with_labels=True):
         if j != feeder:
             dims.append(("load%d" % j, LOAD_KINDS))
             dims.append(("jins%d" % j, [True, False]))
-        dims.append(("h%d" % j, [0.0, 20.0]))
+        dims.append(("h%d" % j, [12.0, 32.0]))   # the base network lies on a plateau (12 m), one junction at a time is raised
     dims.append(("feeder", FEEDER_KINDS))
     dims.append(("tgrad", [0.0, 9.0]))  # junction start temperatures uniform / graded along the index
     if with_labels:
@@ -71,7 +71,7 @@ def h_spec(case):
     p0 = 5.0
     lab = labels(pt.get("labels", "range"), n)
     ops = []
-    heights = [pt.get("h%d" % j, 0.0) for j in range(n)]
+    heights = [pt.get("h%d" % j, 12.0) for j in range(n)]
     for ei, (a, b) in enumerate(edges):
         if pt["e%d" % ei] == "pipe_h":
             heights[b] = heights[b] + 15.0
